@@ -366,7 +366,11 @@ def well_formed(matcher):
                     bad.append(('length-counts-emitting', f"{where}: length {e.length}, predecessor {p.length}"))
                 live = (not e.stop) and e.delayed <= now
                 plive = (not p.stop) and p.delayed <= now
-                if live and not plive:
+                if live and p.stop:
+                    # a STOPPED predecessor is never expanded (and nothing un-stops or stops an entry afterwards, other than a merge
+                    # that replaces its content): distinct from a predecessor that a later pruning postponed again (findings F11/F11b)
+                    bad.append(('live-but-predecessor-stopped', f"{where}: live (delayed {e.delayed}) but predecessor {p.key} is stopped"))
+                elif live and not plive:
                     bad.append(('live-only-if-predecessor-live',
                                 f"{where}: live (delayed {e.delayed}) but predecessor {p.key} stop={p.stop} delayed={p.delayed} > expand_now={now}"))
     return bad
